@@ -45,6 +45,14 @@ RemoveMarkToks(d, f, t, mk) ==
 (* the node starting at position p: token p+1 must open a node or be a leaf *)
 NodeTokAt(d, p) == IF p < Len(d) /\ d[p + 1].k \in {"o", "l"} THEN p + 1 ELSE 0
 DeclaredAttr(n, a) == \E i \in 1..Len(NT(n).attrs) : NT(n).attrs[i].n = a
+AttrSpecOf(n, a) == NT(n).attrs[CHOOSE i \in 1..Len(NT(n).attrs) : NT(n).attrs[i].n = a]
+(* The library treats a None attribute value as "not given": the default is used, and an
+   attribute without default refuses it (a deviation from the JavaScript original, where only
+   `undefined` means "not given"; named here so that it is a visible part of the specification). *)
+AttrValue(n, a, v) ==
+  IF v # "null" THEN [ok |-> TRUE, v |-> v]
+  ELSE IF AttrSpecOf(n, a).req THEN [ok |-> FALSE, v |-> v]
+  ELSE [ok |-> TRUE, v |-> AttrSpecOf(n, a).def]
 
 Apply(st, d, ra) ==
   CASE st.type = "replace" ->
@@ -77,9 +85,15 @@ Apply(st, d, ra) ==
     [] st.type = "attr" ->
          LET i == IF InRange(d, st.pos) THEN NodeTokAt(d, st.pos) ELSE 0 IN
          IF i = 0 THEN Fail
-         ELSE IF DeclaredAttr(d[i].t, st.attr) THEN Ok([d EXCEPT ![i].a[st.attr] = st.value], ra) ELSE Ok(d, ra)
+         ELSE IF DeclaredAttr(d[i].t, st.attr)
+              THEN LET av == AttrValue(d[i].t, st.attr, st.value) IN
+                   IF av.ok THEN Ok([d EXCEPT ![i].a[st.attr] = av.v], ra) ELSE Fail
+              ELSE Ok(d, ra)
     [] st.type = "docAttr" ->
-         IF DeclaredAttr(TopType, st.attr) THEN Ok(d, [ra EXCEPT ![st.attr] = st.value]) ELSE Ok(d, ra)
+         IF DeclaredAttr(TopType, st.attr)
+         THEN LET av == AttrValue(TopType, st.attr, st.value) IN
+              IF av.ok THEN Ok(d, [ra EXCEPT ![st.attr] = av.v]) ELSE Fail
+         ELSE Ok(d, ra)
 
 (* position maps: ranges as triples *)
 GetMap(st) ==
